@@ -1080,9 +1080,12 @@ static void exec_line(char *line) {
                 break;
             }
         }
-        /* skip the block in the parent */
+        /* skip the block in the parent (blocks may nest) */
+        int depth = 1;
         while (g_pc < g_nlines) {
-            if (!strcmp(g_lines[g_pc++], "endfork")) break;
+            const char *l = g_lines[g_pc++];
+            if (!strncmp(l, "fork ", 5) || !strcmp(l, "fork")) depth++;
+            else if (!strcmp(l, "endfork") && --depth == 0) break;
         }
         eb_printf("{\"ev\":\"CHILD\",\"tag\":%ld,\"pid\":%d,\"exited\":%d,\"status\":%d,\"signal\":%d,\"timeout\":%d,\"hang_syscall\":\"%s\",", pos_tag, p, WIFEXITED(st),
                   WIFEXITED(st) ? WEXITSTATUS(st) : -1, (WIFSIGNALED(st) && !timed_out) ? WTERMSIG(st) : 0, timed_out, hang);
